@@ -412,6 +412,15 @@ class Gen:
             target = r.choice(twins)  # another user whose nickname differs from the actor's in letter case only
         if r.random() < 0.1:
             return ("act", cid, {"verb": "MODE", "target": target, "modes": []})
+        if r.random() < 0.12:
+            # one letter flipped several times in one command, in one string or spread over several parameters
+            l = r.choice("iwoO")
+            flips = [r.choice("+-")]
+            for _ in range(r.choice([1, 2, 2, 3, 4])):
+                flips.append("-" if flips[-1] == "+" else "+")
+            if r.random() < 0.5:
+                return ("act", cid, {"verb": "MODE", "target": target, "modes": [("".join(f + l for f in flips), [])]})
+            return ("act", cid, {"verb": "MODE", "target": target, "modes": [(f + l, []) for f in flips]})
         ms = ""
         sign = None
         for _ in range(r.choices([1, 2, 3], [6, 3, 1])[0]):
